@@ -32,6 +32,7 @@ mod fam_meta;
 use common::Args;
 
 fn main() {
+    let _ = common::PROCESS_START.set(std::time::Instant::now());
     let mut argv: Vec<String> = std::env::args().skip(1).collect();
     if argv.is_empty() {
         eprintln!("usage: kv <engine> --property <ID> [--tier quick|thorough] [--replay <path>]");
